@@ -106,9 +106,18 @@ func vfRegistryHistory(nIDs, nOps int, fullFirstBlock bool) {
 			err = rm.add(ctx, []sop.RegistryPayload[sop.Handle]{{RegistryTable: vfTable, IDs: []sop.Handle{h}}})
 			model[i] = h
 		case vfOpSet, vfOpRemove:
-			// KF-C21-1: the id lives in a displaced slot while its ideal slot has been vacated
-			if !fullFirstBlock && vfSlotOf(d, 1, ids[i]) != ideal(i) && vfSlotEmpty(d, 1, ideal(i)) {
-				known = true
+			// KF-C21-1: the id lives in a displaced slot and a slot between its ideal slot and
+			// its own has been vacated (write lookups stop at the first free slot)
+			seg := 1
+			if fullFirstBlock {
+				seg = 2 // block 0 of the first segment is full: the ids live in the second segment file
+			}
+			if at := vfSlotOf(d, seg, ids[i]); at >= 0 && at != ideal(i) {
+				for sl := ideal(i); sl != at; sl = (sl + 1) % handlesPerBlock {
+					if vfSlotEmpty(d, seg, sl) {
+						known = true
+					}
+				}
 			}
 			if op == vfOpSet {
 				h := vfPayload(ids[i], step)
